@@ -240,7 +240,7 @@ class Report:
         if self.violations:
             rdir = os.path.join(VERIF, "replays", self.prop)
             os.makedirs(rdir, exist_ok=True)
-            for sig, rep in self.violations[:25]:
+            for sig, rep in self.violations[:400]:
                 name = hashlib.sha256(json.dumps(sig, sort_keys=True).encode()).hexdigest()[:12] + ".json"
                 path = os.path.join(rdir, name)
                 with open(path, "w") as f:
@@ -249,8 +249,8 @@ class Report:
                 print("VIOLATION property=%s replay=%s" % (self.prop, path))
                 print("   what: %s (x%d)" % (json.dumps(sig, sort_keys=True)[:600],
                                              self.sig_counts.get(json.dumps(sig, sort_keys=True), 1)))
-            if len(self.violations) > 25:
-                print("   ... and %d further distinct violations" % (len(self.violations) - 25))
+            if len(self.violations) > 400:
+                print("   ... and %d further distinct violations" % (len(self.violations) - 400))
             rc = 1
         summary = {k: v for k, v in cov.items() if isinstance(v, (int, float, bool, str)) and k != "rule"}
         print("%s %s: %s violations=%d wall=%.1fs" % (self.prop, self.tier, json.dumps(summary, sort_keys=True),
@@ -261,6 +261,8 @@ class Report:
 def finding_matches(finding, sig):
     """A finding lists `match`: a dict; every key must be present in the signature with an equal value
     (the signature may carry further keys). Values that are lists in the finding mean 'one of'."""
+    if sig in finding.get("instances", ()):
+        return True
     m = finding.get("match")
     if not isinstance(m, dict) or not isinstance(sig, dict):
         return False
